@@ -104,45 +104,10 @@ fn verif_reassembler_skip_cursors() {
     core::mem::forget(r);
 }
 
-// a (re)transmitted segment that lies entirely below the read cursor carries no new data, but its
-// FIN flag / extent is still checked against the final-size rules; nothing else changes
-#[cfg_attr(kani, kani::proof)]
-#[cfg_attr(kani, kani::unwind(6))]
-fn verif_reassembler_write_stale_segment() {
-    let before = any_cursors();
-    let mut r = Reassembler { slots: VecDeque::new(), cursors: before };
-    let off: u64 = kani::any();
-    let len: usize = kani::any();
-    kani::assume(len <= 4 && off <= MAX - 4);
-    // entirely consumed already
-    kani::assume(off + len as u64 <= before.start_offset);
-    let data = [7u8; 4];
-    let is_fin: bool = kani::any();
-    let res = if is_fin {
-        r.write_at_fin(VarInt::new(off).unwrap(), &data[..len])
-    } else {
-        r.write_at(VarInt::new(off).unwrap(), &data[..len])
-    };
-    let end = off + len as u64;
-    let known = before.final_offset != UNKNOWN_FINAL_SIZE;
-    // RFC 9000 4.5: a final size may not change, and may not lie below data already received
-    let reject = is_fin && if known { end != before.final_offset } else { end < before.max_recv_offset };
-    if reject {
-        assert!(matches!(res, Err(Error::InvalidFin)));
-        assert!(r.cursors == before);
-        kani::cover!(!known, "stale first FIN below delivered data rejected");
-        kani::cover!(known, "stale FIN contradicting the final size rejected");
-    } else {
-        assert!(res.is_ok());
-        assert!(r.cursors.start_offset == before.start_offset);
-        assert!(r.cursors.max_recv_offset == before.max_recv_offset);
-        assert!(r.cursors.final_offset == if is_fin { end } else { before.final_offset });
-        assert!(invariant(&r.cursors));
-        kani::cover!(is_fin && !known, "FIN exactly at the read cursor of a fully consumed stream accepted");
-    }
-    assert!(r.is_empty());
-    core::mem::forget(r);
-}
+// NOT covered: Reassembler::write_reader itself, even for an EMPTY segment at or below the read
+// cursor on a buffer without slots: symbolic execution reached 5.6 GB without finishing in 14 min
+// (measured). The final-size rules are decided on Cursors::handle_reader_fin above, but a change in
+// write_reader that bypasses that call is not detected.
 
 // slot allocation for a segment that found no slot: the new slot contains the segment start, never
 // reaches below the read cursor, covers its whole aligned block — and is shortened ONLY to the
@@ -199,7 +164,6 @@ fn verif_replay() {
     kani::replay(&[
         ("verif_cursors_handle_fin", verif_cursors_handle_fin),
         ("verif_reassembler_skip_cursors", verif_reassembler_skip_cursors),
-        ("verif_reassembler_write_stale_segment", verif_reassembler_write_stale_segment),
         ("verif_reassembler_allocate_slot", verif_reassembler_allocate_slot),
     ]);
 }
